@@ -5,7 +5,7 @@ scheduler are real torch objects that record."""
 from checks import _train_common as T
 
 PROP = "C06"
-QUICK_RUNS = 6400
+QUICK_RUNS = 4800
 RULE = (
     "one case = one seeded fit() history (state type, sizes, N<=9(12), pos/neg batch sizes equal or different and "
     "dividing N or not, k in 0..3, lr, 1-3 epochs, SGD / SGD+momentum / Adam, optional StepLR/ExponentialLR, "
